@@ -24,8 +24,8 @@ TABLE = {
     "node_split_branch_three_pieces": ("quick", 600, 5), "node_split_branch_not_needed": ("quick", 300, None),
     "node_split_leaf_three_pieces": ("quick", 700, 6), "node_split_leaf_fits": ("quick", 300, None),
     "node_write_reallocates": ("quick", 300, None), "node_write_branch_reallocates": ("quick", 300, None),
-    "node_spill_branch_root_fits": ("quick", 400, 4), "node_spill_branch_root_splits": ("thorough", 1500, 24),
-    "node_write_leaf_decode": ("thorough", 1200, 20),
+    "node_spill_branch_root_fits": ("quick", 400, 4), "node_spill_branch_root_splits": ("parked", 1500, 24),
+    "node_write_leaf_decode": ("parked", 1200, 20),
     "range_two_leaves_excluded_last_of_leaf": ("quick", 500, 5), "range_two_leaves_included_last_of_leaf": ("quick", 500, 5),
     "range_two_leaves_excluded_gap": ("parked", 3000, 8), "range_two_leaves_included_gap": ("parked", 3000, 8),
     "range_two_leaves_excluded_last_of_leaf_sym": ("parked", 3000, 12), "range_two_leaves_included_last_of_leaf_sym": ("parked", 3000, 12),
